@@ -1144,9 +1144,93 @@ def sweep_mbox():
 
 
 # ---- dispatch ----------------------------------------------------------------------------------------
+# ---- round 7: slide text accessors and the xlsx "cell carries data" predicate (verified contracts) -----------------
+def check_slide_text(cls, title, body, other):
+    dt = _dt()
+    slide = getattr(dt, cls)(slide_number=1, title=title, body_text=list(body), other_text=list(other))
+    got = slide.text_combined
+    want = "\n".join(([title] if title else []) + list(body) + list(other))
+    if got != want:
+        return {"target": f"data_types.py::{cls}.text_combined", "inputs": {"class": cls, "title": title, "body_text": list(body), "other_text": list(other)},
+                "expected": repr(want), "observed": repr(got), "check": "slide_text"}
+    return None
+
+
+def sweep_slide_text(cls):
+    titles = ["", "T"] + ([None] if cls == "PptSlideContent" else [])
+    lists = [[], ["b1"], ["b1", "b2"]]
+    for title in titles:
+        for body in lists:
+            for other in ([], ["o1"], ["o1", "o2"]):
+                r = check_slide_text(cls, title, body, other)
+                if r:
+                    return r
+    return None
+
+
+def check_pptx_text(base, formulas, descriptions, captions):
+    """PptxSlide.get_text against the documented composition: base text, one piece per formula, one caption per described image"""
+    dt = _dt()
+    slide = dt.PptxSlide(slide_number=1, base_text=base, text=base,
+                         formulas=[dt.PptxFormula(latex=l, is_display=bool(d)) for l, d in formulas],
+                         images=[dt.PptxImage(image_index=i + 1, description=d) for i, d in enumerate(descriptions)])
+    got = slide.get_text(include_image_captions=captions)
+    want = ([base] if base else []) + [(f"$${l}$$" if d else f"${l}$") for l, d in formulas]
+    if captions:
+        want += [f"[Image: {d}]" for d in descriptions if d]
+    want = "\n".join(want)
+    if got != want:
+        return {"target": "data_types.py::PptxSlide.get_text", "inputs": {"base_text": base, "formulas": [list(f) for f in formulas],
+                                                                          "image_descriptions": list(descriptions), "include_image_captions": captions},
+                "expected": repr(want), "observed": repr(got), "check": "pptx_text"}
+    return None
+
+
+def sweep_pptx_text():
+    fs = [("x", 0), ("y", 1)]
+    for base in ("", "B", "d1"):
+        for nf in range(0, 3):
+            for formulas in itertools.product(fs, repeat=nf):
+                for ni in range(0, 4):
+                    for descs in itertools.product(("", "d1", "d2"), repeat=ni):
+                        for captions in (False, True):
+                            r = check_pptx_text(base, list(formulas), list(descs), captions)
+                            if r:
+                                return r
+    return None
+
+
+CELL_VALUES = [(None, False), ("", False), (" ", False), ("\n\t", False), ("x", True), (" x ", True), (0, True), (0.0, True), (False, True), (7, True)]
+
+
+def check_cell_non_empty(i):
+    from sharepoint2text.parsing.extractors.ms_modern import xlsx_extractor
+    v, want = CELL_VALUES[i]
+    got = xlsx_extractor._is_cell_non_empty(v)
+    if bool(got) != want or not isinstance(got, bool):
+        return {"target": "xlsx_extractor.py::_is_cell_non_empty", "inputs": {"value_index": i, "value": repr(v)}, "expected": repr(want),
+                "observed": repr(got), "check": "cell_non_empty"}
+    return None
+
+
+def sweep_cell_non_empty():
+    for i in range(len(CELL_VALUES)):
+        r = check_cell_non_empty(i)
+        if r:
+            return r
+    return None
+
+
 def sweeps_for(target):
     t = target or ""
     out = []
+    for cls in ("PptSlideContent", "OdpSlide"):
+        if f"{cls}.text_combined" in t:
+            out.append(("slide_text:" + cls, lambda cls=cls: sweep_slide_text(cls)))
+    if "_is_cell_non_empty" in t:
+        out.append(("cell_non_empty", sweep_cell_non_empty))
+    if "PptxSlide.get_text" in t:
+        out.append(("pptx_text", sweep_pptx_text))
     for cls in _paged():
         if f"{cls}." in t:
             out.append(("paged:" + cls, lambda cls=cls: sweep_paged(cls)))
@@ -1209,6 +1293,8 @@ def all_sweeps():
             ("odp_rich", sweep_odp_rich), ("pptx_rich", sweep_pptx_rich), ("pdf_text", sweep_pdf_text), ("epub_rich", sweep_epub_rich), ("epub_soup", sweep_epub_soup),
             ("ppt_tokens", sweep_ppt_tokens), ("flowing:txt", lambda: sweep_flowing("txt")), ("flowing:html", lambda: sweep_flowing("html")),
             ("mail_parts:eml", lambda: sweep_mail_parts("eml")), ("mail_parts:mbox", lambda: sweep_mail_parts("mbox", exclude=_recorded("mbox")))]
+    out += [("slide_text:PptSlideContent", lambda: sweep_slide_text("PptSlideContent")), ("slide_text:OdpSlide", lambda: sweep_slide_text("OdpSlide")),
+            ("cell_non_empty", sweep_cell_non_empty), ("pptx_text", sweep_pptx_text)]
     return out
 
 
@@ -1430,6 +1516,12 @@ def rerun(stored):
         r = check_single(inp["class"], inp["text"], inp.get("html", ""))
     elif chk == "join":
         r = check_join(inp["unit_texts"])
+    elif chk == "slide_text":
+        r = check_slide_text(inp["class"], inp["title"], inp["body_text"], inp["other_text"])
+    elif chk == "cell_non_empty":
+        r = check_cell_non_empty(inp["value_index"])
+    elif chk == "pptx_text":
+        r = check_pptx_text(inp["base_text"], [tuple(f) for f in inp["formulas"]], inp["image_descriptions"], inp["include_image_captions"])
     elif chk == "epub_soup":
         r = check_epub_soup(inp["unclosed"], inp.get("chapters_after", 2))
     elif chk == "epub_rich":
